@@ -74,3 +74,46 @@ package cfg
 //@     invariant[idx] 0 <= #i && #i <= len(#s) && #s == config.BlackList
 //@     invariant[added_so_far] llen(calls(table.AddBlacklist)) == llen(L0) + #i
 //@        && (forall j int :: 0 <= j && j < #i ==> blAsConfigured(blOf(lget(calls(table.AddBlacklist), llen(L0) + j)), config.BlackList[j]))
+
+// [[route]] sections: one route per section, in file order. For grafanaNet routes the configuration the route is
+// built with is the documented defaults overridden by exactly the options that are set (numeric options left at 0
+// and absent booleans keep their default) -- the same configuration the addRoute grafanaNet command builds.
+//@ spec routeOf(e elem) route.Route := mkiface(eIv(eP1(eP1(e))), eIv(eP2(eP1(e))))
+//@ spec gnIsRoute(r route.Route) bool := typeIs(r, *route.GrafanaNet) && allocated(r)
+//@ spec gnRequired(c route.GrafanaNetConfig, rc Route) bool := c.Addr == rc.Addr && c.ApiKey == rc.ApiKey && c.SchemasFile == rc.SchemasFile && c.AggregationFile == rc.AggregationFile
+//@ spec gnSizes(c route.GrafanaNetConfig, rc Route) bool := c.BufSize == (rc.BufSize != 0 ? rc.BufSize : 10000000) && c.FlushMaxNum == (rc.FlushMaxNum != 0 ? rc.FlushMaxNum : 5000)
+//@      && c.Concurrency == (rc.Concurrency != 0 ? rc.Concurrency : 100) && c.OrgID == (rc.OrgId != 0 ? rc.OrgId : 1)
+//@ spec gnDurations(c route.GrafanaNetConfig, rc Route) bool := c.FlushMaxWait == (rc.FlushMaxWait != 0 ? mul64(rc.FlushMaxWait, 1000000) : 500000000)
+//@      && c.Timeout == (rc.Timeout != 0 ? mul64(rc.Timeout, 1000000) : 10000000000)
+//@      && c.ErrBackoffMin == (rc.ErrBackoffMin != 0 ? mul64(rc.ErrBackoffMin, 1000000) : 100000000)
+//@ spec gnBackoff(c route.GrafanaNetConfig, rc Route) bool := c.ErrBackoffFactor == (!feq(rc.ErrBackoffFactor, f64zero) ? rc.ErrBackoffFactor : f64lit("3/2"))
+//@ spec gnCfgOf(e elem) route.GrafanaNetConfig := as(routeOf(e), *route.GrafanaNet).Cfg
+//@ spec isGn(rc Route) bool := rc.Type == "grafanaNet"
+//@ spec gnBase(c route.GrafanaNetConfig, rc Route) bool := c.Addr == rc.Addr && c.ApiKey == rc.ApiKey && c.SchemasFile == rc.SchemasFile && c.AggregationFile == rc.AggregationFile
+//@      && c.BufSize == 10000000 && c.FlushMaxNum == 5000 && c.FlushMaxWait == 500000000 && c.Timeout == 10000000000 && c.Concurrency == 100 && c.OrgID == 1
+//@      && c.ErrBackoffMin == 100000000 && c.ErrBackoffFactor == f64lit("3/2") && (bhasSuffix(c.Addr, "/metrics") || bhasSuffix(c.Addr, "/metrics/"))
+//@ func InitRoutes(table table.Interface, config Config, meta toml.MetaData) (err error)
+//@   property C20
+//@   merge_paths
+//@   nosafety "the TOML meta data is navigated with unchecked type assertions (the decoder's representation); only the option mapping is specified"
+//@   requires table != nil && table.ref != 0
+//@   let L0 := calls(table.AddRoute)
+//@   modifies *
+//@   ensures[one_route_per_section_in_order; C20] err == nil ==> llen(calls(table.AddRoute)) == llen(L0) + len(config.Route)
+//@   ensures[grafanaNet_options; C20] err == nil ==> (forall j int :: 0 <= j && j < len(config.Route) && isGn(config.Route[j]) ==> gnIsRoute(routeOf(lget(calls(table.AddRoute), llen(L0) + j)))
+//@        && gnRequired(gnCfgOf(lget(calls(table.AddRoute), llen(L0) + j)), config.Route[j]) && gnSizes(gnCfgOf(lget(calls(table.AddRoute), llen(L0) + j)), config.Route[j])
+//@        && gnDurations(gnCfgOf(lget(calls(table.AddRoute), llen(L0) + j)), config.Route[j]) && gnBackoff(gnCfgOf(lget(calls(table.AddRoute), llen(L0) + j)), config.Route[j]))
+//@   loop 1:
+//@     invariant[idx] 0 <= #i && #i <= len(#s) && #s == config.Route
+//@     invariant[count] llen(calls(table.AddRoute)) == llen(L0) + #i
+//@     invariant[added_routes] forall j int :: 0 <= j && j < #i && isGn(config.Route[j]) ==> gnIsRoute(routeOf(lget(calls(table.AddRoute), llen(L0) + j)))
+//@     invariant[added_required] forall j int :: 0 <= j && j < #i && isGn(config.Route[j]) ==> gnRequired(gnCfgOf(lget(calls(table.AddRoute), llen(L0) + j)), config.Route[j])
+//@     invariant[added_sizes] forall j int :: 0 <= j && j < #i && isGn(config.Route[j]) ==> gnSizes(gnCfgOf(lget(calls(table.AddRoute), llen(L0) + j)), config.Route[j])
+//@     invariant[added_durations] forall j int :: 0 <= j && j < #i && isGn(config.Route[j]) ==> gnDurations(gnCfgOf(lget(calls(table.AddRoute), llen(L0) + j)), config.Route[j])
+//@     invariant[added_backoff] forall j int :: 0 <= j && j < #i && isGn(config.Route[j]) ==> gnBackoff(gnCfgOf(lget(calls(table.AddRoute), llen(L0) + j)), config.Route[j])
+//@   loop 2:
+//@     invariant[only_the_booleans] gnBase(cfg, routeConfig)
+//@   loop 3:
+//@     invariant[only_the_booleans] gnBase(cfg, routeConfig)
+//@   loop 4:
+//@     invariant[only_the_booleans] gnBase(cfg, routeConfig)
